@@ -27,6 +27,19 @@ extern uint64_t verif_alloc_count;
 }
 #define VERIF_STR2(x) #x
 #define VERIF_STR(x) VERIF_STR2(x)
+#ifdef __cplusplus
+#include <vector>
+// Point a std::vector at harness-owned storage of exactly the size the harness needs (libstdc++ layout).
+// Keeps small objects small for the solver; verif_release() must be called before the vector is destroyed.
+template <class T>
+static inline void verif_adopt(std::vector<T> &v, T *storage, size_t size, size_t cap) {
+  v._M_impl._M_start = storage; v._M_impl._M_finish = storage + size; v._M_impl._M_end_of_storage = storage + cap;
+}
+template <class T>
+static inline void verif_release(std::vector<T> &v) {
+  v._M_impl._M_start = nullptr; v._M_impl._M_finish = nullptr; v._M_impl._M_end_of_storage = nullptr;
+}
+#endif
 // fill a buffer with symbolic bytes
 static inline void verif_fill(void *p, size_t n) {
   uint8_t *b = (uint8_t *)p;
